@@ -210,3 +210,6 @@ func (a *RtmpServerStub) Observe() {
 		}
 	}
 }
+
+// PeerClosedFirst reports whether the stub itself ended the connection (FIN / RST queued by the actor).
+func (a *RtmpServerStub) PeerClosedFirst() bool { return a.Conn.PeerEnded() }
